@@ -273,7 +273,30 @@ def _pg_ldap_worker(_):
         wire = ref.ldap_starttls_response(0, mid, b'dc=x', b'diag')
         both_ways(acc, ldap.LDAPExtendedResponseStartTLS, wire, None, 'ldap_response',
                   lambda o: None if o.result_code == ldap.LDAPResultCode.SUCCESS else 'result_code', {'kind': 'ldap_response', 'mid': mid})
+    # BER, not DER: RFC 4511 s5.1 restricts LDAP to the definite length form but does not demand the minimal number of
+    # length octets (Active Directory writes 30 84 00 00 00 nn ...).  Every assignment of {minimal, 1, 4} length octets
+    # to the TLVs of a request and of a response (with and without responseName) is a conformant encoding of the same
+    # values.
+    oid = b'1.3.6.1.4.1.1466.20037'
+    for forms in itertools.product((0, 1, 4), repeat=4):
+        f = dict(zip(('msg', 'id', 'op', 'name'), forms))
+        if not any(forms):
+            continue
+        both_ways(acc, ldap.LDAPExtendedRequestStartTLS, ref.ldap_starttls_request(1, f), None, 'ldap_request_ber',
+                  lambda o: None, {'kind': 'ldap_ber', 'what': 'request', 'forms': f})
+    for name in (None, oid):
+        keys = ('msg', 'id', 'op', 'code', 'dn', 'diag') + (('name',) if name else ())
+        for forms in itertools.product((0, 1, 4), repeat=len(keys)):
+            f = dict(zip(keys, forms))
+            if not any(forms):
+                continue
+            for rc in (ldap.LDAPResultCode.SUCCESS, ldap.LDAPResultCode.PROTOCOL_ERROR):
+                both_ways(acc, ldap.LDAPExtendedResponseStartTLS,
+                          ref.ldap_starttls_response(int(rc), 1, b'', b'', f, name), None, 'ldap_response_ber',
+                          lambda o, rc=rc: None if o.result_code == rc else 'result_code',
+                          {'kind': 'ldap_ber', 'what': 'response', 'forms': f, 'code': int(rc), 'name': bool(name)})
     acc.sample({'kind': 'ldap_response', 'wire': ref.ldap_starttls_response(0)}, 1)
+    acc.sample({'kind': 'ldap_ber', 'wire': ref.ldap_starttls_response(0, 1, b'', b'', {'msg': 4, 'op': 4})}, 1)
     return acc.result()
 
 
